@@ -86,10 +86,31 @@ def run(ctx):
         else:
             f = lambda t: (rec.append(canon(t)), np.sum(t * t) + t[0] * t[-1])[1]
         C = getattr(nd, cls)
+        # a third of the objects reach their configuration by attribute assignment (constructed with another method of the same
+        # family, or another order / n, then reassigned): the evaluation points must be those of the final configuration
+        reconf = rng.random() < 0.35
+        kw0 = dict(kw)
+        if reconf:
+            fam = ['central', 'forward', 'backward'] if m in ('central', 'forward', 'backward') else \
+                (['complex', 'multicomplex'] if (m in ('complex', 'multicomplex') and n <= 2) else [m])
+            kw0['method'] = rng.choice(fam)
+            if 'order' in kw0:
+                kw0['order'] = rng.randint(1, 8)
+            if 'n' in kw0:
+                kw0['n'] = rng.randint(1, 2 if kw0['method'] == 'multicomplex' else 4)
         try:
             with warnings.catch_warnings():
                 warnings.simplefilter('ignore')
-                obj = C(f, **kw)
+                obj = C(f, **kw0)
+                if reconf:
+                    if rng.random() < 0.5:
+                        obj(x)              # used once in its first configuration
+                        del rec[:]
+                    obj.method = m
+                    if 'order' in kw:
+                        obj.order = order
+                    if 'n' in kw:
+                        obj.n = n
                 obj(x)
         except Exception as ex:
             ctx.violation('%s raised %r while recording evaluation points' % (cls, ex), cls=cls, method=m, n=n, order=order, x=x.tolist())
